@@ -24,18 +24,20 @@ def model_topology(n_atoms=N_ATOMS):
 class World:
     """data of n frames: symbolic coordinates x[f,a,k], cell lengths L[f,k], cell vectors B[f,i,j], times t[f]; concrete angles.
     cell: False | True (symbolic lengths / vectors) | "triangular" (vectors in mdtraj's reduced form) | "small" / "large" (concrete rectangular cell
-    with all edges below / above 60 A)"""
+    with all edges below / above 60 A) | "rhombohedral" (edges below 60 A, all angles exactly 60 degrees)"""
     def __init__(self, n_frames, cell=True, ortho=False, time=True, n_atoms=N_ATOMS):
         self.n, self.n_atoms = n_frames, n_atoms
         ev = TenSym({})
         self.x = Ten.sym("x", (n_frames, n_atoms, 3))
         self.L = Ten.sym("L", (n_frames, 3)) if cell else None
-        if cell in ("small", "large"):
-            self.L = ev.to_ten([[30 + f, 40 + f, 50 + f] if cell == "small" else [70 + f, 80 + f, 95 + f] for f in range(n_frames)])
+        if cell in ("small", "large", "rhombohedral"):
+            self.L = ev.to_ten([[30 + f, 40 + f, 50 + f] if cell != "large" else [70 + f, 80 + f, 95 + f] for f in range(n_frames)])
             ortho = True
         # angles are concrete (whether a frame is rectangular is a fact of the world, not a case split): all 90 / all skewed / alternating
         skew = [[80 - 3 * f, 70 + 2 * f, 60 + f] for f in range(n_frames)]
         rows = [[90, 90, 90] if (ortho is True or (ortho == "mixed" and f % 2 == 0)) else skew[f] for f in range(n_frames)]
+        if cell == "rhombohedral":
+            rows = [[60, 60, 60] for f in range(n_frames)]      # the primitive cell of an fcc lattice: the largest number on the box line is exactly 60
         self.A = ev.to_ten(rows) if cell else None
         self.B = Ten.sym("B", (n_frames, 3, 3)) if cell else None
         if cell == "triangular":
